@@ -264,3 +264,13 @@ def run_code_only(ctx):
     r.update({"distinct_nontrivial": r["evaluations"], "rule": "code vs spec oracle only (model did not build)",
               "samples": []})
     return r
+
+
+def replay(ctx, payload):
+    init = payload["input"]["init"]
+    seq = [tuple(o) for o in payload["input"]["ops"]]
+    il = ctx.impl("hist", [encode(init, seq)])[0]
+    st = parse_states(core.dec_line(il)) if not il.startswith(("PANIC", "DIED", "TIMEOUT")) else None
+    if st is None or len(st) != len(seq):
+        return "the code did not complete: %s" % il[:200]
+    return spec_check(init, seq, st)
